@@ -322,7 +322,7 @@ def run_batch(world, tier, base_seed, n_runs, budget_s, workers=16, timeout=180.
         print(f"KNOWN-FINDING: property={prop} {f['id']}: {f['what']} (hit {n}x)")
     print(
         f"[{prop}] tier={tier} seed={base_seed} runs={executed}/{n_runs} pass={counts[PASS]} "
-        f"violation={counts[VIOLATION]} rejected={counts[REJECTED]} harness={len(harness)} "
+        f"violation={len(violations)} known-finding-runs={counts[VIOLATION] - len(violations)} rejected={counts[REJECTED]} harness={len(harness)} "
         f"distinct={len(sigs)} wall={wall:.1f}s"
     )
     if harness:
